@@ -410,8 +410,12 @@ impl<'a, 'tcx> Bx<'a, 'tcx> {
                                     .or(lb.expr);
                                 if let Some(inner) = inner {
                                     if let Match(_, [_none, some], _) = &self.strip(inner).kind {
-                                        if let hir::PatKind::TupleStruct(_, [p], _) = &some.pat.kind
-                                        {
+                                        let bound: Option<&hir::Pat<'tcx>> = match &some.pat.kind {
+                                            hir::PatKind::TupleStruct(_, [p], _) => Some(p),
+                                            hir::PatKind::Struct(_, [f], _) => Some(f.pat),
+                                            _ => None,
+                                        };
+                                        if let Some(p) = bound {
                                             v.push(("k", Js::s("For")));
                                             v.push(("pat", self.pat(p)));
                                             v.push(("iter", self.expr(head, m)));
